@@ -83,7 +83,10 @@ def batch_history(draw):
             old = draw(st.lists(st.integers(0, len(designs) - 1), max_size=3))
         order = draw(st.permutations(old + fresh)) if (old or fresh) else []
         ops.append({"batch": list(order)})
-    return {"spec": spec, "designs": designs, "ops": ops, "workers": draw(st.sampled_from([1, 1, 2, 3]))}
+    return {"spec": spec, "designs": designs, "ops": ops, "workers": draw(st.sampled_from([1, 1, 2, 3])),
+            # one design whose first objective call fails transiently (it is re-sampled and retried): in an
+            # unconstrained problem its feasibility marker must not differ from everybody else's
+            "fail_once": draw(st.one_of(st.none(), st.none(), st.integers(0, 9)))}
 
 
 def _cost_obj(c):
@@ -93,11 +96,20 @@ def _cost_obj(c):
     return c["v"]
 
 
-def _mk(spec, designs, log, glog=None):
+def _mk(spec, designs, log, glog=None, fail_key=None, retried=None):
     table = {tuple(d["v"]): d for d in designs}
+    fired = []
 
     def ev(ind):
         key = tuple(ind.vector)
+        if fail_key is not None and key == fail_key and not fired:
+            fired.append(1)
+            raise TimeoutError("injected transient failure")
+        if key not in table and fired and retried is not None and not retried:
+            # the re-sampled replacement of the failed design: a fresh vector the table does not know
+            out = [0.5 + j for j in range(spec["m"])]
+            retried.append((list(ind.vector), out))
+            return tuple(out) if spec["ret"] == "tuple" else out
         log.append(list(ind.vector))
         if key not in table:
             raise HarnessError("objective asked for an unknown design %r" % (key,))
@@ -169,7 +181,11 @@ def check_batches(case):
     from artap.operators import ParetoDominance
     spec, designs = case["spec"], case["designs"]
     log = []
-    prob = _mk(spec, designs, log)
+    fo = case.get("fail_once")
+    fail_idx = fo % len(designs) if (fo is not None and designs and spec["ncon"] == 0) else None
+    retried = []
+    prob = _mk(spec, designs, log, fail_key=tuple(designs[fail_idx]["v"]) if fail_idx is not None else None,
+               retried=retried)
     classes = set()
     try:
         workers = case.get("workers", 1)
@@ -200,7 +216,7 @@ def check_batches(case):
             # a design may legitimately appear twice in one batch (same object): still one call
             with guard("batches"):
                 alg.evaluate(objs)
-            new = [i for i in dict.fromkeys(batch) if i not in done]
+            new = [i for i in dict.fromkeys(batch) if i not in done and not (i == fail_idx and retried)]
             calls = log[before:]
             if sorted(map(tuple, calls)) != sorted(tuple(designs[i]["v"]) for i in new):
                 kind = "evaluated-twice" if len(calls) > len(new) else "not-evaluated"
@@ -211,7 +227,22 @@ def check_batches(case):
                 raise Violation("batches", "call-order", "calls %r, batch order %r" % (calls, [designs[i]["v"] for i in new]))
             done.update(batch)
             for i in done:
+                if i == fail_idx and retried:
+                    continue          # checked separately below: its vector was re-sampled
                 _check_individual("batches", inds[i], designs[i], spec)
+        if fail_idx is not None and retried and fail_idx in done:
+            r = inds[fail_idx]
+            classes.add("retried-design")
+            if r.state != Individual.State.EVALUATED or [float(x) for x in r.vector] != [float(x) for x in retried[0][0]] \
+                    or [_num(c) for c in r.costs] != [float(c) for c in retried[0][1]]:
+                raise Violation("batches", "retried-design-data", "retried design: vector %r costs %r state %r, the "
+                                "successful call used %r -> %r" % (r.vector, r.costs, r.state, retried[0][0], retried[0][1]))
+            others = [inds[i] for i in done if i != fail_idx]
+            for o in others:
+                if bool(o.costs_signed[-1]) != bool(r.costs_signed[-1]):
+                    raise Violation("batches", "retried-design-marker", "unconstrained problem: the design that was "
+                                    "retried after a transient failure carries marker %r, the others %r" % (
+                                        r.costs_signed[-1], o.costs_signed[-1]))
         # marker semantics through the comparator
         if spec["ncon"]:
             cmp_ = ParetoDominance()
@@ -255,7 +286,12 @@ def sweep_cases(draw):
             v = [draw(coord) for _ in range(spec["n"])]
             if v not in vectors:
                 vectors.append(v)
-    return {"spec": spec, "kind": kind, "vectors": vectors, "number": draw(st.integers(1, 6)),
+    # long sweeps too: lengths around the algorithms' default block/population size (100) and its multiples
+    number = draw(st.one_of(st.integers(1, 6), st.integers(1, 6), st.sampled_from([99, 100, 101, 102, 199, 200, 201])))
+    if kind == "custom" and draw(st.integers(0, 3)) == 0:
+        cnt = draw(st.sampled_from([99, 100, 101, 102, 200, 201]))
+        vectors = [[(i * 0.01) % 7.0 + j for j in range(spec["n"])] for i in range(cnt)]
+    return {"spec": spec, "kind": kind, "vectors": vectors, "number": number,
             "k": draw(st.integers(2, 3)), "seed": draw(st.integers(0, 2 ** 31))}
 
 
